@@ -62,8 +62,18 @@ UnorderedClauses(e) ==
      <<"drift:passStructure", e.obs.two_pass = TwoPass(Len(e.case.chunks), e.case.max_merge)>> >>
   \o CSRClauses(e.obs.raw)
 
+(* mg.fits: a value column handed in as one integer type and stored as another *)
+FitsClauses(e) ==
+  LET fits == AllFit(e.case.px, e.case.bits, e.case.unsigned) IN
+  IF e.obs.err # ""
+  THEN << <<"neverSilentlyDifferent:errorOnlyIfUnfit", ~fits>>, <<"nothingWritten", ~e.obs.is_cooler>> >>
+  ELSE << <<"neverSilentlyDifferent", fits>>,
+          <<"pixelwiseExact", e.obs.px = e.case.px>>,
+          <<"sumOfTotals", e.obs.sum = SumSeq([k \in DOMAIN e.case.px |-> e.case.px[k][3]])>> >>
+
 Clauses(e) ==
   CASE e.drv = "mg.merge"       -> MergeClauses(e)
+    [] e.drv = "mg.fits"        -> FitsClauses(e)
     [] e.drv = "mg.incompat"    -> IncompatClauses(e)
     [] e.drv = "mg.breakpoints" -> BreakpointClauses(e)
     [] e.drv = "mg.unordered"   -> UnorderedClauses(e)
